@@ -50,6 +50,12 @@ def generate(rng, tier, rep):
                 # arbitrary bytes through sys.stdout.buffer (the capture stream has a .buffer too)
                 T['writes'] = {'body': [['stdout.badbytes', 'raw bytes follow ']]}
         cases.append(c)
+    if tier != 'search':
+        # every way of displaying a failure x every unusual exception shape, once each
+        for opt in (['-c'], ['-p'], ['--xml=xmlout'], ['-c', '-vv'], ['--buffer', '-c']):
+            for shape in worldcase.ODD:
+                cases.append({'layers': [], 'options': list(opt),
+                              'tests': [{'layer': None}, {'layer': None, 'body': 'error_odd:' + shape}, {'layer': None}]})
     for c in cases:
         count_dist(rep, c)
         rep.count('--buffer' if '--buffer' in c['options'] else 'unbuffered')
